@@ -7,6 +7,7 @@ package main
 
 import (
 	"fmt"
+	"math/big"
 	"strings"
 
 	"verifharness/internal/hx"
@@ -48,7 +49,7 @@ var shadowNames = []string{"min", "max", "any", "all", "int", "repr", "hash", "r
 func (g *gen) scenario() {
 	g.topCost += 60
 	F, G := g.freshF, g.freshG
-	switch g.r.Intn(35) {
+	switch g.r.Intn(40) {
 	case 0: // closure over a local and a parameter
 		g.tag("closure")
 		f, v, w := F(), G(), G()
@@ -440,6 +441,58 @@ def %[1]s():
 	`+form+`
 	return %[2]s
 trace(%[1]s())`, f, v, cont, v))
+	case 34, 35, 36: // literals of different types with the same spelling are distinct constants
+		g.tag("constants-same-spelling")
+		f, v, w := F(), G(), G()
+		bn := new(big.Int).Lsh(big.NewInt(int64(1+g.r.Intn(1<<20))), uint(60+g.r.Intn(40)))
+		bn.Add(bn, big.NewInt(int64(g.r.Intn(1<<30))))
+		hex, dec := bn.Text(16), bn.Text(10)
+		lit := hx.Pick(g.r, []string{"0x" + hex, "0X" + strings.ToUpper(hex), dec, "0o" + bn.Text(8)})
+		small := g.k()
+		items := []string{lit, `"` + hex + `"`, `"` + dec + `"`, fmt.Sprint(small), fmt.Sprintf(`"%d"`, small), `"True"`, "True", `"None"`, "None", lit, `"` + hex + `"`}
+		for i := len(items) - 1; i > 0; i-- {
+			j := g.r.Intn(i + 1)
+			items[i], items[j] = items[j], items[i]
+		}
+		first, second := `"`+hex+`"`, lit
+		if g.chance(50) {
+			first, second = second, first
+		}
+		g.lines(fmt.Sprintf(`
+%[2]s = %[4]s
+%[3]s = %[5]s
+def %[1]s():
+	return [%[6]s]
+trace(%[2]s, %[3]s, %[1]s())`, f, v, w, first, second, strings.Join(items, ", ")))
+	case 37, 38, 39: // x += y on a list takes any iterable and is x.extend(y), in place
+		g.tag("inplace-add-iterable")
+		g.tag("selfcheck")
+		f := F()
+		str := hx.Pick(g.r, []string{"ab", "", "héllo", "x"})
+		its := []string{
+			fmt.Sprintf("%q.codepoints()", str), fmt.Sprintf("%q.codepoint_ords()", str), fmt.Sprintf("%q.elems()", str),
+			fmt.Sprintf("%q.elem_ords()", str), fmt.Sprintf("b%q.elems()", "ab"), "enumerate([7, 8])", "zip([1, 2], [3, 4])",
+			fmt.Sprintf("range(%d)", g.r.Intn(4)), "(1, 2)", "[3]", `{"k": 1}`,
+		}
+		it := its[g.r.Intn(len(its))]
+		if g.chance(60) {
+			it = its[g.r.Intn(5)]
+		}
+		target, ret := "x", "x"
+		init := fmt.Sprintf("[%d]", g.k())
+		if g.chance(35) {
+			target, init, ret = "x[0]", fmt.Sprintf("[[%d], 1]", g.k()), "x[0]"
+		}
+		g.lines(fmt.Sprintf(`
+def %[1]s(y1, y2):
+	x = %[2]s
+	alias = %[5]s
+	%[3]s += y1
+	z = %[2]s
+	%[6]s.extend(y2)
+	return x == z and alias == %[5]s and len(alias) == len(%[7]s)
+trace("selfcheck-begin")
+trace("selfcheck", %[1]s(%[4]s, %[4]s))`, f, init, target, it, ret, strings.Replace(ret, "x", "z", 1), strings.Replace(ret, "x", "z", 1)))
 	default: // keyword-only parameters and evaluation order of arguments
 		g.tag("kwonly")
 		g.tag("call-named")
